@@ -7,7 +7,7 @@ import math
 
 import numpy as np
 
-GEOS = ("lin", "tight", "log", "mixed", "unb")
+GEOS = ("lin", "tight", "log", "mixed", "unb", "log2", "lin2")
 MODES = ("det", "auto", "decl", "spec")
 ANS = ("F", "I", "S", "E")  # default first
 NOISE = ("alt", "LOW", "HIGH")
@@ -34,6 +34,11 @@ def geometry(geo, D):
             logc[i] = True
         elif g == "unb":
             lb[i], ub[i], plb[i], pub[i] = -np.inf, np.inf, -2.0, 2.0
+        elif g == "log2":  # decade bounds whose images lie exactly on the search grid (rounding at the bound matters)
+            lb[i], ub[i], plb[i], pub[i] = 0.01, 10.0, 0.1, 1.0
+            logc[i] = True
+        elif g == "lin2":  # hard bounds that are not multiples of the search mesh
+            lb[i], ub[i], plb[i], pub[i] = -3.3, 4.1, -3.0, 4.0
         else:
             raise ValueError(geo)
     return lb, ub, plb, pub, logc
@@ -47,7 +52,7 @@ def start_point(x0kind, geo, D):
         return np.array(x0kind, float).reshape(1, D)
     x = np.empty(D)
     base_lin = [1.0, -0.5, 0.75, 0.25, -1.25]
-    base_log = [5.0, 0.5, 20.0, 2.0, 0.05]
+    base_log = [5.0, 0.5, 20.0, 2.0, 0.05] if geo != "log2" else [0.5, 0.3, 2.0, 0.7, 0.2]
     for i in range(D):
         if x0kind == "in":
             x[i] = base_log[i % 5] if logc[i] else base_lin[i % 5]
@@ -114,28 +119,32 @@ def constraint(cons, geo, D, x0=None):
         name, par = cons[0], list(cons[1:])
     else:
         name, par = cons, []
+    real = name.endswith("_r")  # real-valued variant: returns the amount of violation (> 0 = violated)
+    if real:
+        name = name[:-2]
     if name == "half":
         c = par[0] if par else (60.0 if islog else 3.0)
 
         def f(X):
             X = np.atleast_2d(np.asarray(X, float))
             s = X[:, 0] + (X[:, 1] if X.shape[1] > 1 else 0.0)
-            return s > c
+            return (s - c) if real else (s > c)
 
     elif name == "ball":
-        r = par[0] if par else (200.0 if islog else 4.0)
-
-        def f(X):
-            X = np.atleast_2d(np.asarray(X, float))
-            return np.sum(X**2, axis=1) > r * r
-
-    elif name == "annulus":
-        r1, r2 = par if par else ((0.2, 300.0) if islog else (0.4, 4.5))
+        r = par[0] if par else {"log": 200.0, "mixed": 200.0, "log2": 6.0, "lin2": 3.5}.get(geo, 4.0)
 
         def f(X):
             X = np.atleast_2d(np.asarray(X, float))
             n2 = np.sum(X**2, axis=1)
-            return (n2 < r1 * r1) | (n2 > r2 * r2)
+            return (n2 - r * r) * (0.05 if real else 1.0) if real else (n2 > r * r)
+
+    elif name == "annulus":
+        r1, r2 = par if par else {"log": (0.2, 300.0), "mixed": (0.2, 300.0), "log2": (0.15, 7.0), "lin2": (0.4, 3.8)}.get(geo, (0.4, 4.5))
+
+        def f(X):
+            X = np.atleast_2d(np.asarray(X, float))
+            n2 = np.sum(X**2, axis=1)
+            return np.maximum(r1 * r1 - n2, n2 - r2 * r2) * 0.05 if real else ((n2 < r1 * r1) | (n2 > r2 * r2))
 
     elif name == "slab":
         a = par[0]
@@ -197,7 +206,7 @@ def default_ans(base, k):
     raise ValueError(base)
 
 
-def half_for(x0kind, geo, D):
+def half_for(x0kind, geo, D, real=False):
     """A half-space x0+x1 <= c that keeps the given start (or any start drawn in the plausible box) feasible
     while cutting off part of the box."""
     lb, ub, plb, pub, logc = geometry(geo, D)
@@ -209,4 +218,4 @@ def half_for(x0kind, geo, D):
     rng = ub - lb
     rng = np.where(np.isfinite(rng), rng, 0.0)
     slack = 0.7 + 2.5e-3 * float(rng[0] + (rng[1] if D > 1 else 0.0))  # a start on a bound is moved 0.1% inside
-    return ["half", s + slack]
+    return ["half_r" if real else "half", s + slack]
